@@ -1814,8 +1814,10 @@ def eager_getslice_lambda(op, x):
         expr = expr(**{x.var.name: head})
     if tail:
         expr = ops.getslice(expr, tail)
-    if x.var.name in expr.inputs:  # dim is preserved, e.g. x[1:]
-        return Lambda(x.var, expr)
+    if isinstance(head, slice):  # dim is preserved, e.g. x[1:]
+        # (also when the body does not depend on the bound variable)
+        size = len(range(*head.indices(x.var.output.size)))
+        return Lambda(Variable(x.var.name, Bint[size]), expr)
     else:  # dim is eliminated, e.g. x[0]
         return expr
 
